@@ -18,6 +18,7 @@ driver_of() {
     C03|C10|C05) echo decode ;;
     C04) echo writer ;;
     C13|C14) echo text ;;
+    C15) echo cxx ;;
     *) echo "" ;;
   esac
 }
@@ -38,10 +39,52 @@ build() {
   gcc -std=gnu11 -Wall -Wno-unused-function -Wno-format-truncation $CF $SANFLAGS -DVF_ROOT=\"$V\" $V/checks/$drv.c $B/binson_parser.o $B/binson_writer.o -o $B/$drv -lm || return 2
 }
 
+# C15: the C++ wrapper, built twice (automatic variables pre-filled with zero / with the 0xFE pattern) + a valgrind pass
+build_cxx() {
+  local variant=$1 B=$V/build/cxx
+  mkdir -p $B
+  local CF="-O1 -g -DBINSON_PARSER_WITH_PRINT -I$REPO/include"
+  gcc -std=c99 $CF $SANFLAGS -c $REPO/src/binson_parser.c -o $B/binson_parser.o || return 2
+  gcc -std=c99 $CF $SANFLAGS -c $REPO/src/binson_writer.c -o $B/binson_writer.o || return 2
+  g++ -std=c++11 $CF $SANFLAGS -ftrivial-auto-var-init=$variant -c $REPO/src/binson.cpp -o $B/binson_$variant.o || return 2
+  g++ -std=c++11 -Wall -Wno-unused-function -Wno-format-truncation -Wno-write-strings $CF $SANFLAGS -ftrivial-auto-var-init=$variant -DVF_ROOT=\"$V\" $V/checks/cxx.cpp \
+      $B/binson_$variant.o $B/binson_parser.o $B/binson_writer.o -o $B/cxx_$variant || return 2
+}
+build_cxx_vg() {
+  local B=$V/build/cxx CF="-O1 -g -DBINSON_PARSER_WITH_PRINT -I$REPO/include"
+  gcc -std=c99 $CF -c $REPO/src/binson_parser.c -o $B/vg_parser.o && gcc -std=c99 $CF -c $REPO/src/binson_writer.c -o $B/vg_writer.o &&
+  g++ -std=c++11 $CF -c $REPO/src/binson.cpp -o $B/vg_binson.o &&
+  g++ -std=c++11 -Wno-write-strings $CF -DVF_ROOT=\"$V\" $V/checks/cxx.cpp $B/vg_binson.o $B/vg_parser.o $B/vg_writer.o -o $B/cxx_vg || return 2
+}
+run_cxx() {
+  local tier=$1 B=$V/build/cxx
+  build_cxx pattern && build_cxx zero && build_cxx_vg || { echo "HARNESS-ERROR: build failed"; exit 2; }
+  VERIF_VARIANT=pattern VERIF_EVIDENCE_OUT=$B/evidence.pattern.json $B/cxx_pattern --prop C15 --tier $tier > $B/pattern.out 2>&1
+  local rc=$?
+  grep -E "^(VIOLATION|KNOWN-FINDING|HARNESS-ERROR|  signature)" $B/pattern.out
+  if [ $rc -ne 0 ]; then cp $B/evidence.pattern.json $V/evidence/C15.json 2>/dev/null; tail -1 $B/pattern.out; exit $rc; fi
+  # uninitialised-value oracle on the inputs that init rejects
+  valgrind -q --error-exitcode=9 --log-file=$B/valgrind.log $B/cxx_vg --valgrind-subset > $B/valgrind.out 2>&1
+  if [ $? -eq 9 ]; then
+    mkdir -p $V/replays/C15; cp $B/valgrind.log $V/replays/C15/valgrind-uninitialised.log
+    echo "VIOLATION property=C15 replay=$V/replays/C15/valgrind-uninitialised.log"
+    echo "  signature: cxx:valgrind:uninitialised-value (a deserialize overload acts on an uninitialised parser)"
+    VERIF_VARIANT=zero VERIF_CXX_PREV="pattern build clean; valgrind pass FAILED" $B/cxx_zero --prop C15 --tier $tier | grep -v "^cxx C15"
+    exit 1
+  fi
+  VERIF_VARIANT=zero VERIF_CXX_PREV="pattern build: $(tail -1 $B/pattern.out | tr -d '"'); valgrind pass: $(tail -1 $B/valgrind.out | tr -d '"') with no uninitialised-value report" exec $B/cxx_zero --prop C15 --tier $tier
+}
+
 if [ "${1:-}" = replay ]; then
   f=${2:?replay file}
   drv=$(sed -n 's/^check: //p' "$f" | head -1)
   prop=$(sed -n 's/^property: //p' "$f" | head -1)
+  if [ "$drv" = cxx ]; then
+    build_cxx zero || { echo "HARNESS-ERROR: build failed"; exit 2; }
+    $V/build/cxx/cxx_zero --prop C15 --replay "$f"; rc=$?
+    if [ $rc = 3 ]; then echo "VIOLATION property=$prop replay=$f"; exit 1; fi
+    exit $rc
+  fi
   build $drv || { echo "HARNESS-ERROR: build failed"; exit 2; }
   $V/build/$drv/$drv --prop $prop --replay "$f"
   rc=$?
@@ -54,5 +97,7 @@ prop=${1:?property id}
 tier=${2:-${VERIF_TIER:-quick}}
 drv=$(driver_of $prop)
 [ -n "$drv" ] || { echo "HARNESS-ERROR: no check for $prop"; exit 2; }
+mkdir -p $V/evidence
+if [ "$drv" = cxx ]; then run_cxx $tier; fi
 build $drv || { echo "HARNESS-ERROR: build failed"; exit 2; }
 exec $V/build/$drv/$drv --prop $prop --tier $tier
